@@ -783,7 +783,13 @@ def find_callee(facts, call, same_tu_only=True):
             if f.tk != "pattern" and f.body is not None:
                 idx.setdefault(f.full, []).append(f)
                 idx.setdefault(("qn", f.qn), []).append(f)
+                if f.d.get("decl") is not None:
+                    idx.setdefault(("decl", f.d["decl"]), []).append(f)
         facts._norm_by_full = idx
+    if call.get("cdecl") is not None:
+        c = [f for f in idx.get(("decl", call["cdecl"]), []) if f.qn == call.get("callee")]
+        if len(c) == 1:
+            return c[0]
     c = idx.get(full) or []
     if len(c) == 1:
         return c[0]
@@ -791,14 +797,34 @@ def find_callee(facts, call, same_tu_only=True):
     return c[0] if len(c) == 1 else None
 
 
-def return_expr(fn):
+def return_expr(fn, local_updates=False):
     """the returned value of a small function as one expression: `if(c) return A; return B;` / `if(c) return A; else return B;` become
     Cond(c, A, B) (synthetic node); declarations are skipped (locals are resolved by the caller's resolver).  None if the body does
-    anything else (loops, calls in statement position, assignments)."""
+    anything else (loops, calls in statement position, assignments).  local_updates=True also skips statements without a return that
+    only assign locals (`if(g) v = P.map(v);`) — for callers that resolve assigned locals themselves."""
+    def only_local_updates(s):
+        for x in walk(s):
+            k = x.get("k")
+            if k in ("Return", "For", "While", "Do", "ForRange", "Switch", "Throw", "Lambda", "Break", "Continue"):
+                return False
+            if k == "Assign" and not (x["lhs"].get("k") == "Ref" and x["lhs"].get("dk") == "local"):
+                return False
+            if k == "Un" and x.get("op") in ("++", "--") and not (x["e"].get("k") == "Ref" and x["e"].get("dk") == "local"):
+                return False
+            if is_call(x) and not x.get("cconst") and x.get("k") in ("MCall", "OpCall"):
+                return False
+            if is_call(x):
+                for a, pn_, pt_ in dfl.call_args_with_params(x, fn):
+                    if pt_ is not None and dfl.is_nonconst_ref(pt_):
+                        return False
+        return True
+
     def of(stmts):
         for i, s in enumerate(stmts):
             k = s.get("k")
             if k == "Decl":
+                continue
+            if local_updates and k in ("If", "Assign", "Un") and only_local_updates(s):
                 continue
             if k == "Block":
                 return of(s.get("s", []) + stmts[i + 1:])
@@ -820,3 +846,252 @@ def return_expr(fn):
     if body is None:
         return None
     return of(body.get("s", []) if body.get("k") == "Block" else [body])
+
+
+# =====================================================================================================
+# inlining of extracted helpers (fact tree + CFG), for rules that follow objects through a function
+# =====================================================================================================
+
+def _lambda_function(facts, fn, lam):
+    """the dumped call operator of a Lambda node of fn"""
+    if lam.get("op_decl") is not None:
+        cands = [g for g in facts.functions if g.tk != "pattern" and g.body is not None and g.d.get("decl") == lam["op_decl"] and "<lambda" in (g.qn or "")]
+        if len(cands) == 1:
+            return cands[0]
+        return None
+    cands = [g for g in facts.functions if g.tk != "pattern" and g.body is not None and g.file == fn.file and g.line == lam.get("l") and "<lambda" in (g.qn or "")]
+    return cands[0] if len(cands) == 1 else None
+
+
+def inline_helpers(fn, select, rounds=2):
+    """A copy of fn in which calls in statement position to helpers defined in the analysed sources are replaced by the helper's body
+    (parameters become reference / const locals initialised with the argument expressions, the helper's CFG is spliced into the
+    caller's), so that dominance, typestate and path rules see one function.  select(call, callee) decides which callees are inlined
+    (the rules exclude the functions they model by name); lambdas called through a never-reassigned local are inlined too.
+    Value-returning calls whose value is used, virtual and recursive callees are left alone.  Returns fn itself if nothing was inlined."""
+    import copy
+    facts = fn.facts
+    if fn.cfg is None or fn.body is None:
+        return fn
+    cur = fn
+    serial = [0]
+    for _ in range(rounds):
+        par = dfl.parents(cur)
+        sites = []
+        lam_of = {}
+        for n in cur.nodes():
+            if n.get("k") == "Var" and (n.get("init") or {}).get("k") == "Lambda":
+                lam_of[n["d"]] = n["init"]
+        assigned = dfl.assigned_decls(cur)
+        for n in dfl.own_nodes(cur):
+            g = None
+            args = None
+            if n.get("k") == "Call" or (n.get("k") == "MCall" and (n.get("obj") is None or n["obj"].get("k") == "This" or n.get("cstatic"))):
+                g = find_callee(facts, n)
+                args = n.get("a", [])
+            elif n.get("k") == "OpCall" and n.get("op") == "()" and n.get("a") and n["a"][0].get("k") == "Ref" and n["a"][0].get("d") in lam_of and n["a"][0]["d"] not in assigned:
+                g = _lambda_function(facts, fn, lam_of[n["a"][0]["d"]])
+                args = n["a"][1:]
+            if g is None or g.cfg is None or g.body is None or g.d.get("virtual") or g is fn or len(g.params) != len(args):
+                continue
+            if any(a_.get("k") == "Block" and a_.get("inlined") == g.qn for a_, s_ in dfl.enclosing_stmt_chain(par, n)):
+                continue            # recursion
+            pr = par.get(id(n))
+            if pr is None or "i" not in n or cur.cfg.block_of(n["i"]) is None:
+                continue
+            pn, slot = pr
+            if not ((pn.get("k") == "Block" and isinstance(slot, tuple) and slot[0] == "s") or (pn.get("k") in ("If", "For", "While", "Do", "ForRange") and slot in ("then", "else", "body"))):
+                continue
+            if not select(n, g):
+                continue
+            sites.append((n, g, args))
+        if not sites:
+            break
+        d = copy.deepcopy(cur.d)
+        new = featlib.Function(facts, d)
+        byid = {}
+        for x in new.nodes():
+            if "i" in x:
+                byid[x["i"]] = x
+        npar = dfl.parents(new)
+        next_i = max(byid) + 1
+        blocks = d["cfg"]["blocks"]
+        next_b = max(b["id"] for b in blocks) + 1
+        exit_id = d["cfg"]["exit"]
+        for call0, g, args0 in sites:
+            call = byid[call0["i"]]
+            args = call.get("a", []) if call.get("k") != "OpCall" else call["a"][1:]
+            serial[0] += 1
+            off_d = 10000000 * serial[0]
+            gb = copy.deepcopy(g.body)
+            gc = copy.deepcopy(g.d["cfg"])
+            own = set()
+            for x in walk(gb):
+                if x.get("k") == "Var":
+                    own.add(x["d"])
+            pd = {p["d"] for p in g.params}
+            imap = {}
+            for x in walk(gb):
+                if "i" in x:
+                    imap[x["i"]] = next_i
+                    x["i"] = next_i
+                    next_i += 1
+                if x.get("k") == "Var":
+                    x["d"] = x["d"] + off_d
+                elif x.get("k") == "Ref" and x.get("dk") in ("local", "param") and (x.get("d") in own or x.get("d") in pd):
+                    x["d"] = x["d"] + off_d
+                    x["dk"] = "local"
+                elif x.get("k") == "Return":
+                    x["k"] = "InlinedReturn"
+            pvars = []
+            for p, a in zip(g.params, args):
+                t = g.type(p["t"]).strip()
+                v = {"k": "Var", "n": p["n"], "d": p["d"] + off_d, "t": p["t"], "l": call.get("l"), "init": a, "inlined_param": True}
+                if t.endswith("&"):
+                    v["ref"] = True
+                else:
+                    v["const"] = True
+                pvars.append(v)
+            decl = {"k": "Decl", "i": next_i, "l": call.get("l"), "vars": pvars}
+            next_i += 1
+            blk = {"k": "Block", "i": next_i, "l": call.get("l"), "s": [decl, gb], "inlined": g.qn}
+            next_i += 1
+            pn, slot = npar[id(call)]
+            if isinstance(slot, tuple):
+                pn[slot[0]][slot[1]] = blk
+            else:
+                pn[slot] = blk
+            # ---- CFG ----
+            where = None
+            for b in blocks:
+                if call["i"] in b["el"]:
+                    where = b
+                    break
+            pos = where["el"].index(call["i"])
+            post = {"id": next_b, "el": where["el"][pos + 1:], "succ": where.get("succ", [])}
+            for k_ in ("term", "term_id", "cond", "label", "noreturn"):
+                if k_ in where:
+                    post[k_] = where.pop(k_)
+            next_b += 1
+            bmap = {}
+            for b in gc["blocks"]:
+                bmap[b["id"]] = next_b
+                next_b += 1
+            where["el"] = where["el"][:pos] + [decl["i"]]
+            where["succ"] = [bmap[gc["entry"]]]
+            for b in gc["blocks"]:
+                nb = dict(b)
+                nb["id"] = bmap[b["id"]]
+                els = []
+                throws = False
+                for e in b.get("el", []):
+                    x_ = imap.get(e)
+                    if x_ is None:
+                        continue
+                    els.append(x_)
+                nb["el"] = els
+                for k_ in ("term_id", "cond"):
+                    if k_ in nb and nb[k_] is not None:
+                        nb[k_] = imap.get(nb[k_])
+                if b["id"] == gc["exit"]:
+                    nb["succ"] = [post["id"]]
+                elif b.get("noreturn"):
+                    nb["succ"] = [exit_id]
+                else:
+                    nb["succ"] = [bmap[s_] if s_ is not None else None for s_ in b.get("succ", [])]
+                blocks.append(nb)
+            blocks.append(post)
+            for x in walk(gb):
+                if "i" in x:
+                    byid[x["i"]] = x
+            # a throw inside the helper leaves the caller as well
+            for b in blocks:
+                if b["id"] in bmap.values() and any((byid.get(e) or {}).get("k") == "Throw" for e in b.get("el", [])):
+                    b["succ"] = [exit_id]
+        new._byid = None
+        # a closure whose every use was an inlined call is dead: drop its body so that the statements exist once (in the inlined place)
+        inlined_calls = {c0["i"] for c0, g_, a_ in sites if c0.get("k") == "OpCall"}
+        if inlined_calls:
+            lam_vars = {}
+            for x in new.nodes():
+                if x.get("k") == "Var" and (x.get("init") or {}).get("k") == "Lambda":
+                    lam_vars[x["d"]] = x
+            uses = {}
+            for x in dfl.own_nodes(new):
+                if x.get("k") == "Ref" and x.get("d") in lam_vars:
+                    uses[x["d"]] = uses.get(x["d"], 0) + 1
+            for d_, v_ in lam_vars.items():
+                ncalls = sum(1 for c0, g_, a_ in sites if c0.get("k") == "OpCall" and c0["a"][0].get("d") == d_)
+                # (the callee operand of an inlined call was removed from the tree together with the call statement)
+                if ncalls and uses.get(d_, 0) == 0:
+                    v_["init"] = dict(v_["init"], body=None, inlined=True)
+        # InlinedReturn statements are no CFG elements of the caller
+        ir = {x["i"] for x in new.nodes() if x.get("k") == "InlinedReturn" and "i" in x}
+        for b in blocks:
+            b["el"] = [e for e in b["el"] if e not in ir]
+        new.inlined_from = getattr(cur, "inlined_from", []) + [g.qn for _, g, _ in sites]
+        cur = new
+    return cur
+
+
+class Trial:
+    """records the obligations / incomplete answers of a rule run so that the caller can decide which of two runs (plain, helpers inlined) to commit"""
+
+    def __init__(self, ck):
+        self.ck = ck
+        self.log = []
+
+    def __getattr__(self, name):
+        return getattr(self.ck, name)
+
+    def ob(self, *a, **k):
+        self.log.append(("ob", a, k))
+        return a[2] if len(a) > 2 else k.get("ok")
+
+    def incomplete(self, *a, **k):
+        self.log.append(("incomplete", a, k))
+
+    def note(self, *a, **k):
+        self.log.append(("note", a, k))
+
+    def incompletes(self):
+        return [e for e in self.log if e[0] == "incomplete"]
+
+    def violations(self):
+        return [e for e in self.log if e[0] == "ob" and not (e[1][2] if len(e[1]) > 2 else e[2].get("ok"))]
+
+    def commit(self):
+        for what, a, k in self.log:
+            getattr(self.ck, what)(*a, **k)
+        self.log = []
+
+
+class InlinedFacts:
+    """view of a fact base in which every function has its same-file helpers inlined (see inline_helpers); built lazily, once"""
+
+    def __init__(self, facts, select_for):
+        self._facts = facts
+        self._select_for = select_for
+        self._functions = None
+
+    def __getattr__(self, name):
+        return getattr(self._facts, name)
+
+    @property
+    def functions(self):
+        if self._functions is None:
+            self._functions = [inline_helpers(f, self._select_for(f)) if f.tk != "pattern" else f for f in self._facts.functions]
+        return self._functions
+
+
+def run_with_inlining(ck, rule_fn, facts, inlined_facts, *args, **kw):
+    """run rule_fn(ck, facts, ...) ; if it answers 'construct not modelled' somewhere, run it again on the fact base with extracted helpers inlined and
+    commit the run that decides more (fewer incomplete answers), or the inlined run if it finds a definite violation"""
+    t1 = Trial(ck)
+    rule_fn(t1, facts, *args, **kw)
+    if t1.incompletes():
+        t2 = Trial(ck)
+        rule_fn(t2, inlined_facts, *args, **kw)
+        if len(t2.incompletes()) < len(t1.incompletes()) or (t2.violations() and not t1.violations()):
+            t1 = t2
+    t1.commit()
